@@ -51,6 +51,7 @@ def check(run: Run, prog: Program, model: Model, tier: str) -> None:
         " Also decided: the key table DictSchema.__call__ builds (flag per entry), the relation of every bound check in every prop combination (not on a lossy image of the value), surplus positions of an exact element list also when length props are carried, the documented float tolerance.")
     run.explanation += " DECL-STORES: on the declaration automaton every accepting path of a well-typed call shape reaches the shape's prop-set. MEMBER-VISITED: on every returning path of visit_list (exact lists) / visit_dict (keyed tables) each declared member is dispatched to, reported missing or absent by a fact. RESULT-ACC: all sequences (<= 3) of add_error / add_errors([]) / add_errors([x, y]), with and without initial errors."
     run.explanation += " MEMBER-CTX: a member schema is visited with value, path and the caller's own **kwargs - no keyword the enclosing visit added for itself."
+    run.explanation += " TRUTH-GUARD: per single-prop configuration no error row has the bare truth value of the prop's payload among its path facts (a declared 0 / '' / False is a declaration), except for constraints that reject nothing at the falsy payload (min_len 0, substr '', pattern ''). TYPED-COVER counts a dispatch made in a helper the typed loop calls."
     run.rule_text = ("one obligation per (visitor, type, prop) row, per (prop-set, prop) presence, per key-table / shape / "
                      "alternative configuration; non-trivial = predicate extracted from interpreter paths and compared as a relation")
     from ..entry import entry_transparent
@@ -189,12 +190,13 @@ def check(run: Run, prog: Program, model: Model, tier: str) -> None:
     _member_visited(run, prog, model, "Validator")
     _sibling(run, prog, model)
     _result_acc(run, prog, model)
+    truth_guards(run, prog, model, tier, "TRUTH-GUARD")
     run.floor("CONSTRAINT", 30)
     run.floor("TYPE-FIRST", 14)
     run.floor("PRESENT", 40)
 
 
-def _type_first(run: Run, prog: Program, model: Model, vis: str, hook: str, f: Any, st: Any) -> None:
+def _type_first(run: Run, prog: Program, model: Model, vis: str, hook: str, f: Any, st: Any, rule: str = "TYPE-FIRST") -> None:
     want = TYPE[hook]
     paths = run_visit(prog, model, vis, hook, Config(tuple(st.props[:2])) if st.name not in ("ListSchema", "DictSchema") else Config(()),
                       validator_ctx, unroll=1)
@@ -217,10 +219,10 @@ def _type_first(run: Run, prog: Program, model: Model, vis: str, hook: str, f: A
                 probs.append("a wrongly typed value does not yield exactly one TypeValidationError and stop")
         ok += 1
     if probs:
-        run.violated("TYPE-FIRST", construct, f.loc, "; ".join(sorted(set(probs)))[:300],
+        run.violated(rule, construct, f.loc, "; ".join(sorted(set(probs)))[:300],
                      witness=f"a value that is not a {want} is accepted or mis-reported")
     else:
-        run.holds("TYPE-FIRST", construct, f.loc, f"isinstance(value, {want}) decided first on all {ok} paths", nontrivial=True)
+        run.holds(rule, construct, f.loc, f"isinstance(value, {want}) decided first on all {ok} paths", nontrivial=True)
 
 
 def _errs(p: Path) -> List[Event]:
@@ -566,7 +568,9 @@ def _list_forms(run: Run, prog: Program, model: Model, tier: str) -> None:
                 continue
             n = loops[-1].data["iterations"]
             seen_iter = max(seen_iter, n)
-            acc = [e for e in p.events if e.kind == "accept" and e.func == f.qualname]
+            # (the dispatch may sit in a helper the loop body calls: what counts is that it happens under visit_list)
+            acc = [e for e in p.events if e.kind == "accept" and (e.func == f.qualname or any(q == f.qualname for q in (e.stack or ())))
+                   and getattr(e.data.get("recv"), "key", lambda: "")() == "T"]
             skipped = n - len(acc)
             if skipped > 0:
                 # documented relaxation of the substitution validator: `...` placeholders at the ends
@@ -683,6 +687,68 @@ def _sibling(run: Run, prog: Program, model: Model) -> None:
                 run.violated("SIBLING", c, f.loc, f"validator rows {sorted(ka - kb)} vs substitution validator rows {sorted(kb - ka)}"[:300],
                              witness="schema % value accepts/rejects a value the schema itself rejects/accepts on that bound")
     run.floor("SIBLING", 3)
+
+
+# constraints that reject nothing when their payload is the falsy value of its kind: `len(value) < 0`, `"" not in value`,
+# `re.search("", value) is None` are never true, so skipping them for a falsy payload changes no verdict
+VACUOUS_WHEN_FALSY = {"min_len", "substr", "pattern"}
+
+
+def truth_guards(run: Run, prog: Program, model: Model, tier: str, rule: str, visitors: Tuple[str, ...] = VALIDATORS) -> None:
+    """TRUTH-GUARD: a declared constraint is in force whatever its payload is: `len(0)`, `max(0)`, `alphabet("")`, a fixed value
+    `0` / `""` / `False` are declarations like any other.  A check that is reached only when the payload is TRUTHY (`if
+    props.len and ...`, `props.max or DEFAULT`) treats them as `not declared`.  Decided per single-prop configuration: no
+    error row may have the bare truth value of the prop's payload among its path facts - except for the constraints that
+    are vacuous at the falsy payload anyway (min_len 0, substr "", pattern "")."""
+    from ..vtable import dedupe, extract
+    for vis in visitors:
+        if vis not in model.visitors:
+            continue
+        for hook, f in sorted(model.visit_methods(vis).items()):
+            st = model.by_hook.get(hook)
+            if st is None:
+                continue
+            for prop in st.props:
+                if prop in ("type", "elements", "keys", "types", "name"):
+                    continue            # schema-valued / container-valued props: their forms are LIST-FORMS / DICT / ANY
+                rows, _ = extract(prog, model, vis, hook, Config((prop,)), 1)
+                guarded = sorted({r.error for r in dedupe(rows) if any(k == f"props.{prop}" for k, _, _ in r.all_facts)})
+                c = f"{vis}.{hook} {{{prop}}}: in force for a falsy payload"
+                if guarded and prop not in VACUOUS_WHEN_FALSY:
+                    run.violated(rule, c, f.loc, f"{', '.join(guarded)} is reported only on paths where `props.{prop}` is truthy: a declared "
+                                 f"falsy payload (0, 0.0, '', b'', False) is treated as not declared",
+                                 witness=f"validate(schema.<type>.{prop}(<falsy>), <violating value>) has no error")
+                elif guarded:
+                    run.holds(rule, c, f.loc, "guarded by truthiness, but the constraint rejects nothing at the falsy payload", nontrivial=True)
+                else:
+                    run.holds(rule, c, f.loc, "no error row depends on the payload's truth value", nontrivial=False)
+    run.floor(rule, 20)
+
+
+def prevalidation_forms(run: Run, prog: Program, model: Model, tier: str, rule: str) -> None:
+    """The substitutor validates a list value with SubstitutorValidator before it pins anything.  `the value conforms to the
+    original schema` is what every substitution property argues from, so for every element-list shape that validator has
+    to be able to report every kind of error the plain Validator reports for the shape (it delegates to it today).  A shape
+    for which a whole error kind is missing - an empty element list taken for `nothing declared` - lets a non-conforming
+    value through to be pinned."""
+    from ..vtable import dedupe, extract
+    if "SubstitutorValidator" not in model.visitors:
+        return
+    fsv = model.visitors["SubstitutorValidator"].lookup("visit_list")
+    cfgs = [Config(("elements",), {"elements": mk}, label=f"elements={name}") for name, mk in list_shapes(2)]
+    cfgs.append(Config(("type",), {"type": lambda: member("T")}, label="{type}"))
+    for cfg in cfgs:
+        rv, _ = extract(prog, model, "Validator", "visit_list", cfg, 1)
+        rs, _ = extract(prog, model, "SubstitutorValidator", "visit_list", cfg, 1)
+        kv, ks = {r.error for r in rv}, {r.error for r in rs}
+        c = f"SubstitutorValidator.visit_list {cfg.label}: reports what the validator reports"
+        missing = sorted(kv - ks)
+        if missing:
+            run.violated(rule, c, fsv.loc, f"the validator can report {', '.join(missing)} for this shape, the pre-validation of a substitution never does",
+                         witness="schema.list([]) % [1] succeeds although [1] does not conform to schema.list([])")
+        else:
+            run.holds(rule, c, fsv.loc, f"error kinds {sorted(kv)} all reachable", nontrivial=bool(kv))
+    run.floor(rule, 5)
 
 
 def _result_acc(run: Run, prog: Program, model: Model, rule: str = "RESULT-ACC") -> None:
@@ -841,4 +907,21 @@ MUTANTS += [
      "edits": [('d42/validation/_validator.py', '                           path: PathHolder,\n                           value: List[Any],\n                           elements: List[GenericSchema],\n                           start: int = 0,\n                           **kwargs: Any) -> List[ValidationError]:\n        errors: List[ValidationError] = []\n        for index, element_schema in enumerate(elements):\n            real_index = start + index\n', '                           path: PathHolder,\n                           value: List[Any],\n                           elements: List[GenericSchema],\n                           **kwargs: Any) -> List[ValidationError]:\n        # `start` is the offset of the validated window inside `value`\n        # (non-zero for the tail and body forms only)\n        start = kwargs.get("start", 0)\n        errors: List[ValidationError] = []\n        for index, element_schema in enumerate(elements):\n            real_index = start + index\n'),
                ('d42/validation/_validator.py', '                errors = self._validate_elements(path, value, elements[1:-1], **kwargs)\n                return result.add_errors(errors)\n            all_errors = []\n            for index, val in enumerate(value):\n                errors = self._validate_elements(path, value, elements[1:-1], index, **kwargs)\n                all_errors.append(errors)\n            all_errors.sort(key=len)\n            return result.add_errors(all_errors[0])\n', '                errors = self._validate_elements(path, value, elements[1:-1], **kwargs)\n                return result.add_errors(errors)\n            all_errors = []\n            for start in range(len(value)):\n                errors = self._validate_elements(path, value, elements[1:-1],\n                                                 **{**kwargs, "start": start})\n                all_errors.append(errors)\n            all_errors.sort(key=len)\n            return result.add_errors(all_errors[0])\n'),
                ('d42/validation/_validator.py', '        if (len(elements) >= 1) and is_ellipsis(elements[0]):\n            elements = elements[1:]\n            start = max(0, len(value) - len(elements))\n            errors = self._validate_elements(path, value, elements, start, **kwargs)\n            return result.add_errors(errors)\n\n        errors = self._validate_elements(path, value, elements, **kwargs)\n', '        if (len(elements) >= 1) and is_ellipsis(elements[0]):\n            elements = elements[1:]\n            start = max(0, len(value) - len(elements))\n            errors = self._validate_elements(path, value, elements,\n                                             **{**kwargs, "start": start})\n            return result.add_errors(errors)\n\n        errors = self._validate_elements(path, value, elements, **kwargs)\n')]},
+]
+
+# round 8: the seeded changes that were missed on first contact, replayed against the current tree
+MUTANTS += [
+    {"name": 'seeded C02-O', "rule": 'TRUTH-GUARD',
+     "edits": [('d42/validation/_validator.py', '            return ValueValidationError(path, value, expected_val)\n        return None\n\n    def _validate_elements(self,\n                           path: PathHolder,\n                           value: List[Any],\n', '            return ValueValidationError(path, value, expected_val)\n        return None\n\n    def _validate_length(self, path: PathHolder, value: Any,\n                         props: Any) -> Optional[ValidationError]:\n        length = len(value)\n        if props.len and (length != props.len):\n            return LengthValidationError(path, value, props.len)\n        if props.min_len and (length < props.min_len):\n            return MinLengthValidationError(path, value, props.min_len)\n        if props.max_len and (length > props.max_len):\n            return MaxLengthValidationError(path, value, props.max_len)\n        return None\n\n    def _validate_elements(self,\n                           path: PathHolder,\n                           value: List[Any],\n'),
+               ('d42/validation/_validator.py', '                error = RegexValidationError(path, value, schema.props.pattern)\n                return result.add_error(error)\n\n        if schema.props.len is not Nil:\n            if len(value) != schema.props.len:\n                result.add_error(LengthValidationError(path, value, schema.props.len))\n        if schema.props.min_len is not Nil:\n            if len(value) < schema.props.min_len:\n                result.add_error(MinLengthValidationError(path, value, schema.props.min_len))\n        if schema.props.max_len is not Nil:\n            if len(value) > schema.props.max_len:\n                result.add_error(MaxLengthValidationError(path, value, schema.props.max_len))\n\n        if schema.props.substr is not Nil:\n            if schema.props.substr not in value:\n', '                error = RegexValidationError(path, value, schema.props.pattern)\n                return result.add_error(error)\n\n        if error := self._validate_length(path, value, schema.props):\n            result.add_error(error)\n\n        if schema.props.substr is not Nil:\n            if schema.props.substr not in value:\n'),
+               ('d42/validation/_validator.py', '        if error := self._validate_type(path, value, list):\n            return result.add_error(error)\n\n        if schema.props.len is not Nil:\n            if len(value) != schema.props.len:\n                return result.add_error(LengthValidationError(path, value, schema.props.len))\n        if schema.props.min_len is not Nil:\n            if len(value) < schema.props.min_len:\n                return result.add_error(\n                    MinLengthValidationError(path, value, schema.props.min_len))\n        if schema.props.max_len is not Nil:\n            if len(value) > schema.props.max_len:\n                return result.add_error(\n                    MaxLengthValidationError(path, value, schema.props.max_len))\n\n        if (schema.props.type is Nil) and (schema.props.elements is Nil):\n            return result\n', '        if error := self._validate_type(path, value, list):\n            return result.add_error(error)\n\n        if error := self._validate_length(path, value, schema.props):\n            return result.add_error(error)\n\n        if (schema.props.type is Nil) and (schema.props.elements is Nil):\n            return result\n')]},
+]
+
+MUTANTS += [
+    {"name": "neutral: the min_len check is skipped for a falsy bound (len(value) < 0 is never true)", "expect": "SILENT",
+     "edits": [("d42/validation/_validator.py", "        if schema.props.min_len is not Nil:\n            if len(value) < schema.props.min_len:\n                return result.add_error(\n                    MinLengthValidationError(path, value, schema.props.min_len))",
+                "        if (schema.props.min_len is not Nil) and schema.props.min_len:\n            if len(value) < schema.props.min_len:\n                return result.add_error(\n                    MinLengthValidationError(path, value, schema.props.min_len))")]},
+    {"name": "the max_len check is skipped for a falsy bound", "rule": "TRUTH-GUARD",
+     "edits": [("d42/validation/_validator.py", "        if schema.props.max_len is not Nil:\n            if len(value) > schema.props.max_len:\n                return result.add_error(\n                    MaxLengthValidationError(path, value, schema.props.max_len))",
+                "        if (schema.props.max_len is not Nil) and schema.props.max_len:\n            if len(value) > schema.props.max_len:\n                return result.add_error(\n                    MaxLengthValidationError(path, value, schema.props.max_len))")]},
 ]
